@@ -26,18 +26,23 @@ import (
 )
 
 var stateReviewed = map[string]string{
-	"base.logCustomCounterImpl.unwrittenCount":       "batched metric counter: accumulated per record and flushed to Prometheus by UpdateMetrics; read only to be added to and flushed, never consulted for a record's fields or filter result",
-	"base.logCustomCounterImpl.unwrittenLength":      "batched metric counter, as unwrittenCount",
-	"base.valueCounterProvider.unwrittenValue":       "batched metric counter: accumulated per record and flushed by UpdateMetrics; never consulted for a record's fields or filter result",
-	"transform/taddfields.addFieldsTransform.buffer": "scratch buffer: RunWithBuffer truncates it to zero length before appending and returns a copy of the expansion (C12.R4/R7); only its capacity survives from record to record",
-	"transform/tdrop.dropTransform.totalDropped":     "the documented sampling state of `drop` with a rate: the keep/drop decision is defined over the running totals (C15.R4 decides the bookkeeping)",
-	"transform/tdrop.dropTransform.totalMatched":     "the documented sampling state of `drop` with a rate, as totalDropped",
+	"base.logCustomCounterImpl.unwrittenCount":        "batched metric counter: accumulated per record and flushed to Prometheus by UpdateMetrics; read only to be added to and flushed, never consulted for a record's fields or filter result",
+	"base.logCustomCounterImpl.unwrittenLength":       "batched metric counter, as unwrittenCount",
+	"base.valueCounterProvider.unwrittenValue":        "batched metric counter: accumulated per record and flushed by UpdateMetrics; never consulted for a record's fields or filter result",
+	"transform/taddfields.addFieldsTransform.buffer":  "scratch buffer: RunWithBuffer truncates it to zero length before appending and returns a copy of the expansion (C12.R4/R7); only its capacity survives from record to record",
+	"transform/tdrop.dropTransform.totalDropped":      "the documented sampling state of `drop` with a rate: the keep/drop decision is defined over the running totals (C15.R4 decides the bookkeeping)",
+	"transform/tdrop.dropTransform.totalMatched":      "the documented sampling state of `drop` with a rate, as totalDropped",
+	"base.FieldSetExtractor.fieldSetBuffer":           "scratch slice: Extract overwrites every element (one per locator, the slice is made with len(locators)) before it returns it; nothing of the previous record survives",
+	"base.LogProcessCounterSet.mergeKeyBuffer":        "scratch buffer: stored back truncated to zero length; only its capacity survives from record to record",
+	"base.LogProcessCounterSet.currentCustomCounters": "the selection made for the record in hand: SelectMetricKeySet stores it unconditionally on every call, from the pair looked up by this record's keys, and runs before any transform can count (C19.R6)",
 }
 
 func init() {
 	register("C15", "C15.R6", ruleStateF13)
 	register("C13", "C15.R6", ruleStateF13)
 	register("C09", "C15.R6", ruleStateF13)
+	register("C19", "C15.R6", ruleStateF13)
+	register("C19", "C12.R6", ruleC12R6) // attribution: the label values a record is counted under are keyed by strings of the record
 }
 
 type stateField struct {
@@ -50,6 +55,8 @@ func ruleStateF13(c *Ctx) {
 	var roots []*ssa.Function
 	roots = append(roots, transformImpls(c)...)
 	roots = append(roots, c.P.Fn(aParse))
+	// metric attribution: which counters a record is counted under is decided by SelectMetricKeySet from the record's keys
+	roots = append(roots, c.P.Fn(aSelectKeySet))
 	reach := c.P.reachableFrom(roots, func(f *ssa.Function) bool {
 		return !c.P.inUni[f] || constructionBoundary[anchorName(f)]
 	})
@@ -195,6 +202,7 @@ func ruleStateF13(c *Ctx) {
 	for _, n := range names {
 		if why, ok := stateReviewed[n]; ok {
 			verdict[n] = "reviewed: " + why
+			accepted[n] = true // a reviewed item is not a channel from earlier records into a result
 			nRev++
 		}
 	}
@@ -359,7 +367,7 @@ func copySource(v ssa.Value) ssa.Value {
 			n = anchorName(cl.Common().StaticCallee())
 		}
 		switch n {
-		case "util.DeepCopyString", "strings.Clone", "util.DeepCopyStringFromBytes":
+		case "util.DeepCopyString", "strings.Clone", "util.DeepCopyStringFromBytes", "util.DeepCopyStrings", "slices.Clone", "golang.org/x/exp/slices.Clone":
 			v = cl.Common().Args[0]
 			continue
 		}
@@ -427,7 +435,7 @@ func (c *Ctx) wholeInputMemo(f *stateField, all map[string]*stateField, accepted
 				return
 			}
 			fa, ok := strip(s2.Addr).(*ssa.FieldAddr)
-			if !ok || !isStringType(s2.Val.Type()) {
+			if !ok || !(isStringType(s2.Val.Type()) || isStringSlice(s2.Val.Type())) {
 				return
 			}
 			n := fieldName(fa.X.Type(), fa.Field)
@@ -436,6 +444,10 @@ func (c *Ctx) wholeInputMemo(f *stateField, all map[string]*stateField, accepted
 			}
 			kn = n
 			keySrc = append(keySrc, copySource(s2.Val), s2.Val)
+			// append(K[:0], src...) copies the elements of src
+			if cl, ok := strip(s2.Val).(*ssa.Call); ok && isBuiltin(cl, "append") && len(cl.Call.Args) == 2 {
+				keySrc = append(keySrc, cl.Call.Args[1], strip(cl.Call.Args[1]))
+			}
 		})
 		if kn == "" || (keyName != "" && keyName != kn) {
 			return false, "", ""
@@ -456,6 +468,31 @@ func (c *Ctx) wholeInputMemo(f *stateField, all map[string]*stateField, accepted
 	for _, rd := range f.reads {
 		guarded := false
 		fn := rd.Parent()
+		// "is the memo populated at all": the loaded value is only compared with nil
+		if rv, ok := rd.(ssa.Value); ok && rv.Referrers() != nil {
+			onlyNil, n := true, 0
+			for _, ref := range *rv.Referrers() {
+				switch r := ref.(type) {
+				case *ssa.DebugRef:
+				case *ssa.BinOp:
+					n++
+					k, isK := r.Y.(*ssa.Const)
+					if r.X == rv && isK && k.IsNil() && (r.Op == token.EQL || r.Op == token.NEQ) {
+						continue
+					}
+					k, isK = r.X.(*ssa.Const)
+					if r.Y == rv && isK && k.IsNil() && (r.Op == token.EQL || r.Op == token.NEQ) {
+						continue
+					}
+					onlyNil = false
+				default:
+					onlyNil = false
+				}
+			}
+			if onlyNil && n > 0 {
+				continue
+			}
+		}
 		isKeyLoad := func(v ssa.Value) bool {
 			u, ok := strip(v).(*ssa.UnOp)
 			if !ok || u.Op != token.MUL {
@@ -465,14 +502,26 @@ func (c *Ctx) wholeInputMemo(f *stateField, all map[string]*stateField, accepted
 			return ok && fieldName(fa.X.Type(), fa.Field) == keyName
 		}
 		eachInstr(fn, func(in ssa.Instruction) {
-			bo, ok := in.(*ssa.BinOp)
-			if !ok || guarded || (bo.Op != token.EQL && bo.Op != token.NEQ) {
+			var eq []bedge
+			switch bo := in.(type) {
+			case *ssa.BinOp:
+				if guarded || (bo.Op != token.EQL && bo.Op != token.NEQ) || (!isKeyLoad(bo.X) && !isKeyLoad(bo.Y)) {
+					return
+				}
+				eq = boolEdgesList(bo, bo.Op == token.EQL)
+			case *ssa.Call:
+				// slices.Equal(input, key)
+				f := bo.Common().StaticCallee()
+				if guarded || f == nil || !strings.HasSuffix(strings.SplitN(f.String(), "[", 2)[0], "slices.Equal") || len(bo.Common().Args) != 2 {
+					return
+				}
+				if !isKeyLoad(bo.Common().Args[0]) && !isKeyLoad(bo.Common().Args[1]) {
+					return
+				}
+				eq = boolEdgesList(bo, true)
+			default:
 				return
 			}
-			if !isKeyLoad(bo.X) && !isKeyLoad(bo.Y) {
-				return
-			}
-			eq := boolEdgesList(bo, bo.Op == token.EQL)
 			for _, e := range eq {
 				if e.b.Succs[e.si] == rd.Block() || e.b.Succs[e.si].Dominates(rd.Block()) {
 					guarded = true
